@@ -63,8 +63,13 @@ def run(chk):
                    isinstance(n.args[0].op, ast.Mult), derived=" ".join(ast.unparse(n.args[0]).split()), loc=fi.loc(n), stmt=norm_stmt(n))
         chk.ob("R-ST-SIB", c + "{flip}", "rows are flipped (Nyquist first)", any(s_ == ("flipud",) and k_ > [k for k, s in enumerate(sk) if s[0] == "ifft"][0] for k_, s_ in enumerate(sk))
                if any(s[0] == "ifft" for s in sk) else False, derived="%s" % [s[0] for s in sk], loc=fi.loc())
-        expect(chk, "R-ST-LIN", c + ".result", r.ret, lin=[R], dtype="complex", shape=(HALF, LinExpr(HALF).scale(2)), kind=K_ARRAY, tags_has=["flip", "gaussian", "conj", "toeplitz"],
+        expect(chk, "R-ST-LIN", c + ".result", r.ret, lin=[R], dtype="complex", shape=(HALF, LinExpr(HALF).scale(2)), kind=K_ARRAY, tags_has=["flip", "gaussian", "conj"],
                loc=fi.loc())
+        # the lag matrix built by scipy's toeplitz is the construction the {conjugation} / {rows} rules read; another construction of the
+        # voices is not located by them
+        chk.ob("R-ST-LIN", c + ".result[via:toeplitz]", "derives through toeplitz", r.ret is not None and "toeplitz" in r.ret.tags,
+               derived="tags %s" % sorted(t for t in (r.ret.tags if r.ret is not None else ()) if t == "toeplitz"), loc=fi.loc(),
+               inconclusive=not (r.ret is not None and "toeplitz" in r.ret.tags) and tz is None)
     chk.ob("R-ST-SIB", "transform~transform_w_scipy_fft", "equal skeletons", sks["transform"] == sks["transform_w_scipy_fft"] and len(sks["transform"]) >= 6,
            derived="%s vs %s" % (sks["transform"], sks["transform_w_scipy_fft"]),
            inconclusive=(sks["transform"] == sks["transform_w_scipy_fft"]))       # equal but shorter than the known construction: not located
@@ -135,13 +140,21 @@ def run(chk):
                     continue
                 ix = ams[0].targets[0].id
                 env = straightline_env(sc.node.body, Normaliser(), exclude=set(sc.params) | {ix, "points"})
+                import re as _re
+                cands = []
                 for n in ast.walk(sc.node):
                     e_ = n.value if isinstance(n, (ast.Assign, ast.Return)) and n.value is not None else None
-                    if e_ is None or n is ams[0] or not any(isinstance(x, ast.Name) and x.id == ix for x in ast.walk(e_)) or \
-                            not isinstance(e_, ast.BinOp):
+                    if e_ is None or n is ams[0] or not isinstance(e_, ast.BinOp):
                         continue
-                    pl = env.poly(e_).subst_atoms(lambda a: "dt" if a.endswith(".dt") or a == "dt" else a).canon()
-                    closed = (pl, sc.loc(n))
+                    # the row count under whatever local name (len(<the transform>)); the argmax under its own name
+                    pl = env.poly(e_).subst_atoms(lambda a: "dt" if a.endswith(".dt") or a == "dt" else
+                                                  ("points" if _re.fullmatch(r"len\([\w.]+\)", a) else a))
+                    if ix in pl.atoms():
+                        cands.append((isinstance(n, ast.Return), n.lineno, pl.canon(), sc.loc(n)))
+                if cands:
+                    # the returned expression when it is computed from the argmax (intermediate names expanded), else the last assignment
+                    best = max(cands, key=lambda t: (t[0], t[1]))
+                    closed = (best[2], best[3])
         if closed is not None:
             want_c = Normaliser().poly(ast.parse("(points - %s) / (2 * points * dt)" % ix, mode="eval").body).canon()
             chk.ob("R-ST-AXIS", c + "{frequency axis}", "row i (the argmax) is frequency (points - i) / (2 * points * dt): the flipped axis in closed form",
